@@ -192,6 +192,7 @@ class no_cache(object):
             return CacheInfo(stats[HIT], stats[MISS], stats[LOAD], maxsize, len(cache))
 
         # interface
+        update_wrapper(wrapper, user_function) # first: the interface wins
         wrapper.__wrapped__ = user_function
         #XXX: better is handle to key_function=keygen(ignore)(user_function) ?
         wrapper.info = info
@@ -206,7 +207,7 @@ class no_cache(object):
         wrapper.__mask__ = __get_mask
         wrapper.__map__ = __get_keymap
        #wrapper._queue = None  #XXX
-        return update_wrapper(wrapper, user_function)
+        return wrapper
 
     def __get__(self, obj, objtype):
         """support instance methods"""
@@ -381,6 +382,7 @@ class inf_cache(object):
             return CacheInfo(stats[HIT], stats[MISS], stats[LOAD], maxsize, len(cache))
 
         # interface
+        update_wrapper(wrapper, user_function) # first: the interface wins
         wrapper.__wrapped__ = user_function
         #XXX: better is handle to key_function=keygen(ignore)(user_function) ?
         wrapper.info = info
@@ -395,7 +397,7 @@ class inf_cache(object):
         wrapper.__mask__ = __get_mask
         wrapper.__map__ = __get_keymap
        #wrapper._queue = None  #XXX
-        return update_wrapper(wrapper, user_function)
+        return wrapper
 
     def __get__(self, obj, objtype):
         """support instance methods"""
@@ -608,6 +610,7 @@ class lfu_cache(object):
             return CacheInfo(stats[HIT], stats[MISS], stats[LOAD], maxsize, len(cache))
 
         # interface
+        update_wrapper(wrapper, user_function) # first: the interface wins
         wrapper.__wrapped__ = user_function
         #XXX: better is handle to key_function=keygen(ignore)(user_function) ?
         wrapper.info = info
@@ -622,7 +625,7 @@ class lfu_cache(object):
         wrapper.__mask__ = __get_mask
         wrapper.__map__ = __get_keymap
        #wrapper._queue = use_count #XXX
-        return update_wrapper(wrapper, user_function)
+        return wrapper
 
     def __get__(self, obj, objtype):
         """support instance methods"""
@@ -865,6 +868,7 @@ class lru_cache(object):
             return CacheInfo(stats[HIT], stats[MISS], stats[LOAD], maxsize, len(cache))
 
         # interface
+        update_wrapper(wrapper, user_function) # first: the interface wins
         wrapper.__wrapped__ = user_function
         #XXX: better is handle to key_function=keygen(ignore)(user_function) ?
         wrapper.info = info
@@ -879,7 +883,7 @@ class lru_cache(object):
         wrapper.__mask__ = __get_mask
         wrapper.__map__ = __get_keymap
        #wrapper._queue = queue #XXX
-        return update_wrapper(wrapper, user_function)
+        return wrapper
 
     def __get__(self, obj, objtype):
         """support instance methods"""
@@ -1097,6 +1101,7 @@ class mru_cache(object):
             return CacheInfo(stats[HIT], stats[MISS], stats[LOAD], maxsize, len(cache))
 
         # interface
+        update_wrapper(wrapper, user_function) # first: the interface wins
         wrapper.__wrapped__ = user_function
         #XXX: better is handle to key_function=keygen(ignore)(user_function) ?
         wrapper.info = info
@@ -1111,7 +1116,7 @@ class mru_cache(object):
         wrapper.__mask__ = __get_mask
         wrapper.__map__ = __get_keymap
        #wrapper._queue = queue #XXX
-        return update_wrapper(wrapper, user_function)
+        return wrapper
 
     def __get__(self, obj, objtype):
         """support instance methods"""
@@ -1316,6 +1321,7 @@ class rr_cache(object):
             return CacheInfo(stats[HIT], stats[MISS], stats[LOAD], maxsize, len(cache))
 
         # interface
+        update_wrapper(wrapper, user_function) # first: the interface wins
         wrapper.__wrapped__ = user_function
         #XXX: better is handle to key_function=keygen(ignore)(user_function) ?
         wrapper.info = info
@@ -1330,7 +1336,7 @@ class rr_cache(object):
         wrapper.__mask__ = __get_mask
         wrapper.__map__ = __get_keymap
        #wrapper._queue = None  #XXX
-        return update_wrapper(wrapper, user_function)
+        return wrapper
 
     def __get__(self, obj, objtype):
         """support instance methods"""
